@@ -49,17 +49,18 @@ Proof.
     destruct (T (oid i) k); simpl; reflexivity.
 Qed.
 
-Theorem erase_embeds : forall d d', embeds d d' -> dembeds (erase d) (erase d').
+Theorem erase_embeds : forall fr d d', embeds_g fr d d' -> dembeds (erase d) (erase d').
 Proof.
-  intros d. induction d using node_ind'; intros d' He; inversion He; subst; simpl.
+  intros fr d. induction d using node_ind'; intros d' He; inversion He; subst; simpl.
   - constructor.
+  - apply demb_null. destruct d'; simpl in *; try discriminate; exact I.
   - rewrite map_app. constructor. clear He.
     match goal with Hf : Forall2 _ kvs _ |- _ => revert H; induction Hf as [|kv kv' l l' [Hk Hv] Hrest IHf]; intros HF end.
     + constructor.
     + inversion HF; subst. simpl. constructor; [|apply IHf; auto].
       simpl. rewrite Hk. split; auto. apply (proj2 H1). exact Hv.
   - rewrite map_app. constructor. clear He.
-    match goal with Hf : Forall2 embeds els _ |- _ => revert H; induction Hf as [|x x' l l' Hx Hrest IHf]; intros HF end.
+    match goal with Hf : Forall2 (embeds_g _) els _ |- _ => revert H; induction Hf as [|x x' l l' Hx Hrest IHf]; intros HF end.
     + constructor.
     + inversion HF; subst. simpl. constructor; [|apply IHf; auto]. apply H1. exact Hx.
   - rewrite map_app. constructor.
